@@ -228,6 +228,7 @@ theorem runFx_sim (a : Actor) (s : St) (f : Fx) (hx : Aux a s) :
   | forget k =>
     simp only [runFx]
     split <;> exact ⟨s, by simp [accepts_cons], rfl, ⟨hx.kill, hx.sup⟩, id⟩
+  | spawnChild c => exact ⟨s, by simp [runFx, accepts_cons, next], rfl, ⟨hx.kill, hx.sup⟩, id⟩
 
 theorem runFxs_sim (fs : List Fx) (a : Actor) (s : St) (hx : Aux a s) :
     Sim next (FxRel a.phase (StopOk a s)) s (runFxs a fs) := by
@@ -248,7 +249,8 @@ def Grace (s : St) : Prop := s.killed = true → s.grace = true
 
 /-- The events a segment's side effects produce. -/
 def isSelfFx : Ev → Bool
-  | .sendRet true _ _ | .stopRet true _ _ | .killRet true _ | .fxJoin _ | .fxReply _ _ _ | .fxForget _ _ => true
+  | .sendRet true _ _ | .stopRet true _ _ | .killRet true _ | .fxJoin _ | .fxReply _ _ _ | .fxForget _ _
+  | .fxSpawn _ _ => true
   | _ => false
 
 theorem runFx_selfFx (a : Actor) (f : Fx) : ∀ e ∈ evs (runFx a f).2, isSelfFx e = true := by
@@ -277,6 +279,7 @@ theorem next_grace {s s1 : St} {e : Ev} (h : next s e = .ok s1) (he : isSelfFx e
   | fxJoin g => cases h; exact hg
   | fxReply k v ok => cases h; exact hg
   | fxForget k ok => cases h; exact hg
+  | fxSpawn c l => cases h; exact hg
   | _ => simp [isSelfFx] at he
 
 theorem accepts_grace {tr : List Ev} {s s' : St} (h : accepts next s tr = .ok s')
